@@ -103,3 +103,8 @@ def shape_str(s):
 
 
 DT_SHORT = {"float64": "f64", "float32": "f32", "int64": "i64", "int32": "i32"}
+
+
+def tol_for(*units):
+    """Relative tolerance for quantities expressed in these units (None = the default 1e-9)."""
+    return U.tol_for(*[ou(u) if isinstance(u, str) else u for u in units])
